@@ -108,6 +108,12 @@ func replayMain(path string) int {
 		if strings.HasPrefix(f.Msg, "[continuation without retry]") {
 			cont = faultContNoRetry
 		}
+		if f.Prop == "C09" {
+			core.FaultFinalHook = func(s *core.Sys, shown *core.Model) []core.Violation {
+				eo := &endOracle{model: shown, afterFaults: true, what: "after I/O failures, the fault cleared and two clean reopens: "}
+				return eo.check(s)
+			}
+		}
 		r := core.RunFault(f.Cfg, f.Ops, cont, p)
 		fmt.Println("  failing step:", r.HitOp, "outcome:", r.Outcome)
 		return show(r.Viol)
